@@ -225,7 +225,7 @@ def term_value(v):
 
 EXT = {'json': 'json', 'json_list': 'json', 'numpy': 'npy', 'pandas': 'pd', 'series': 'pd', 'generator': 'jsonl',
        'generator_lazy': 'jsonl', 'list_of_numpy': None, 'dir': None, 'continues': None, 'inmemory': None,
-       'generator0': 'jsonl', 'lon0': None, 'dir0': None, 'dirlink': None, 'inmemory_empty': None}
+       'generator0': 'jsonl', 'lon0': None, 'dir0': None, 'dirlink': None, 'inmemory_empty': None, 'json_titled': 'json'}
 
 DTYPES = {'int': int, 'str': str, 'float': float, 'bool': bool, 'list': list, 'dict': dict, 'Path': 'Path'}
 
